@@ -133,6 +133,55 @@ def preludes(r, k: int) -> list[str]:
     return outs
 
 
+LAW_CONDS = ["a", "a == 1", "a and b", "b or nil", "s contains 'x'", "1 < 'x'", "nil", "g", "g == 'G'", "zz", "a != b", "false", "n > 1"]
+LAW_EXPRS = ["a", "g", "1", "'x'", "nil", "a | default: 'D'", "g | downcase", "n | plus: 1", "(1..3) | join: '-'", "zz", "true", "s | upcase"]
+LAW_BODIES = ["A", "{{ a }}", "{% increment n %}", "{% assign a = 'Z' %}{{ a }}", "{% for q in (1..2) %}{{ q }}{{ a }}{% endfor %}",
+              "{% if a %}T{% else %}F{% endif %}", "{% render 'q' %}", "{% cycle 'p', 'q' %}", "{{ it }}", "{{ g }}{{ b }}", "",
+              " \n ", "{% capture b %}C{% endcapture %}{{ b }}", "{% if 1 < 'x' %}{% endif %}", "{% decrement c %}{{ c }}"]
+
+
+def law_probes(chk: C.Check, r, rounds: int) -> int:
+    n = 0
+    for _ in range(rounds):
+        pre = "".join("{%% assign %s = %s %%}" % (v, lit(r)) for v in POOL if r.random() < 0.5)
+        data = {"g": "G", "xs": [r.choice([1, "x", None, True, "<b>", [1, 2]]) for _ in range(r.randrange(0, 4))]}
+        body = "".join(r.choice(LAW_BODIES) for _ in range(r.randrange(1, 4)))
+        loader = {"p": body, "q": "q:" + DUMP}
+
+        def both(what, lhs, rhs, ld=loader):
+            nonlocal n
+            n += 1
+            x, y = render(lhs, ld, data), render(rhs, ld, data)
+            if x != y:
+                chk.finding("oracle:law-" + what, f"{lhs!r} gave {x} but {rhs!r} gave {y}",
+                            {"law": what, "lhs": lhs, "rhs": rhs, "loader": ld, "data": data, "lhs_out": x, "rhs_out": y})
+
+        # render ... for: every item alone, in order (the partial does not look at forloop here)
+        arg = r.choice(["", ", a: 7", ", b: g"])
+        alone = "".join("{%% render 'p' with xs[%d] as it%s %%}" % (i, arg) for i in range(len(data["xs"])))
+        both("render-for-is-concatenation", pre + "{% render 'p' for xs as it" + arg + " %}", pre + alone)
+        # capture then print = the block in place
+        z = r.choice(["zq", "a", "b"])
+        if ("{{ %s }}" % z) not in body and ("assign %s " % z) not in body and ("capture %s " % z) not in body:
+            # ("X": a blank block is suppressed as a whole inside capture but not at the top level)
+            both("capture-then-output", pre + "{% capture " + z + " %}X" + body + "{% endcapture %}{{ " + z + " }}", pre + "X" + body)
+        # unless = if not
+        c1, c2 = r.choice(LAW_CONDS), r.choice(LAW_CONDS)
+        alts = r.choice(["", "{% else %}E", "{% elsif " + c2 + " %}B", "{% elsif " + c2 + " %}B{% else %}E"])
+        both("unless-is-if-not", pre + "{% unless " + c1 + " %}" + body + alts + "{% endunless %}",
+             pre + "{% if not (" + c1 + ") %}" + body + alts + "{% endif %}")
+        # assign then print = print
+        e = r.choice(LAW_EXPRS)
+        both("assign-then-output", pre + "{% assign zq = " + e + " %}{{ zq }}", pre + "{{ " + e + " }}")
+        # the with binding lives only inside, whatever the name was bound to outside
+        x = r.choice(POOL)
+        e = r.choice([w for w in LAW_EXPRS if "|" not in w])   # with takes primitive expressions only
+        both("with-binding-only-inside", pre + "{% with " + x + ": " + e + " %}{{ " + x + " }}{% endwith %}={{ " + x + " }}",
+             pre + "{{ " + e + " }}={{ " + x + " }}")
+    return n
+
+
+
 def oracle(chk: C.Check, r, thorough: bool) -> tuple[int, int, list]:
     n = 0
     nontrivial = 0
@@ -315,6 +364,10 @@ def oracle(chk: C.Check, r, thorough: bool) -> tuple[int, int, list]:
         n += 1
         if res["ctx"] is None or res["o"][0] != "E" or res["ctx"][0] != 0 or res["ctx"][1] != 0 or res["ctx"][2] != "main":
             chk.finding("oracle:context-unbalanced-after-error", f"{src!r}: {res}", {"source": src, "result": res})
+    # ... laws proved of the model (Proofs/Render_buffer.v, Render_capture.v), probed on the
+    # implementation alone: render-for = concatenation of isolated item renders; capture-then-print
+    # = the block itself; unless = if not; assign-then-print = print; a with binding lives only inside
+    n += law_probes(chk, r, 40 if not thorough else 400)
     return n, nontrivial, samples
 
 
